@@ -18,7 +18,7 @@ Modelling decisions (each is checked by the correspondence run):
 * out-of-range read of `items[b+1]` is the explicit outcome `panic`.
 * follows the repaired code (4231007, 79d35ec, d8a082d, 3b432db): inactive list reset after a forced
   break, fallback breakpoints measured by `sumAfter`, deactivation without the penalty width,
-  non-positive stretch counts as unstretchable; and bb6487a: exact-fit guard (`snapL`, `snapR`).
+  non-positive stretch counts as unstretchable; and bb6487a: exact-fit guard (`snapL`, `snapR`), afcdce7: the same guard in the penalty-width deactivation test.
 * NaN is not modelled (inputs are finite; no operation of the algorithm produces NaN from finite
   inputs of moderate size).
 -/
@@ -230,7 +230,7 @@ def slotDem (g : Grp α) (c : Nat) : Option α :=
 width the test is made on the line without the penalty width (a later break may still fit). -/
 def deactivates (cx : Ctx α) (a : Node α) (r : Option α) : Bool :=
   (if cx.it.ty = Ty.penalty && !(cx.it.width == k 0) then
-      decide (cx.lineW < (cx.W - a.d.w) - (cx.Z - a.d.z))
+      decide (cx.lineW * (k 1 + cx.P.eps) < (cx.W - a.d.w) - (cx.Z - a.d.z))
     else (match r with | none => true | some r => decide (r < -(k 1 : α)))) || isForced cx.P cx.it
 
 /-- `lb.activeNodes.Remove(active); lb.inactiveNodes.Push(active)` or keep -/
